@@ -37,6 +37,9 @@ type TWalk struct {
 	N         int    `json:"n"`
 	AtOrAfter *int64 `json:"at_or_after_time"`
 	BeforeT   *int64 `json:"before_time"`
+	// far-away bounds as text (see TReq)
+	AtOrAfterText string `json:"at_or_after_text,omitempty"`
+	BeforeText    string `json:"before_text,omitempty"`
 }
 
 // QCase: pagination.TimeBasedRangeQueries called directly.
@@ -392,7 +395,7 @@ func (h *harness) evalServedObs(c Case) (o servedObs, f failure) {
 		after, _ := posOf(r.After)
 		before, _ := posOf(r.Before)
 		want := timeRef(c.D, filters{after, before, r.AtOrAfter, r.BeforeT}, r.First, r.Last)
-		srep, err := h.model.Ask(hx.N("timeref", edgesS(sortedEdges(c.D)), optEdgeS(after), optEdgeS(before), optI64(r.AtOrAfter), optI64(r.BeforeT), optI(r.First), optI(r.Last)).String())
+		srep, err := h.model.Ask(hx.N("timeref", edgesS(sortedEdges(c.D)), optEdgeS(after), optEdgeS(before), boundAtom(r.AtOrAfter, r.AtOrAfterText), boundAtom(r.BeforeT, r.BeforeText), optI(r.First), optI(r.Last)).String())
 		if err != nil {
 			return o, failure{"model driver failed: " + err.Error(), "correspondence", "model"}
 		}
@@ -414,7 +417,7 @@ func (h *harness) modelLine(c Case, o servedObs) (string, string) {
 	for _, gc := range o.Calls {
 		tbl = append(tbl, hx.L(callS(gc), edgesS(gc.Reply)))
 	}
-	return hx.N("tconn", hx.N("table", tbl...), hx.I(int64(len(c.D))), hx.B(r.SelPI), hx.B(r.SelTC), optI(r.First), optI(r.Last), aS, bS, optI64(r.AtOrAfter), optI64(r.BeforeT)).String(), ""
+	return hx.N("tconn", hx.N("table", tbl...), hx.I(int64(len(c.D))), hx.B(r.SelPI), hx.B(r.SelTC), optI(r.First), optI(r.Last), aS, bS, boundAtom(r.AtOrAfter, r.AtOrAfterText), boundAtom(r.BeforeT, r.BeforeText)).String(), ""
 }
 
 // ---- walks --------------------------------------------------------------------------------------------
@@ -430,7 +433,7 @@ func (h *harness) evalWalk(c Case) failure {
 			return failure{fmt.Sprintf("the walk does not terminate: %d pages over %d edges", pages, len(c.D)), "property", "walk"}
 		}
 		n := wk.N
-		r := TReq{SelPI: true, SelTC: pages%3 == 0, AtOrAfter: wk.AtOrAfter, BeforeT: wk.BeforeT}
+		r := TReq{SelPI: true, SelTC: pages%3 == 0, AtOrAfter: wk.AtOrAfter, BeforeT: wk.BeforeT, AtOrAfterText: wk.AtOrAfterText, BeforeText: wk.BeforeText}
 		if wk.Forward {
 			r.First, r.After = &n, cur
 		} else {
@@ -692,7 +695,7 @@ func (h *harness) walkCalls(c Case) []getterCall {
 	var cur *CurArg
 	for pages := 0; pages <= len(c.D)+2; pages++ {
 		n := wk.N
-		r := TReq{SelPI: true, SelTC: pages%3 == 0, AtOrAfter: wk.AtOrAfter, BeforeT: wk.BeforeT}
+		r := TReq{SelPI: true, SelTC: pages%3 == 0, AtOrAfter: wk.AtOrAfter, BeforeT: wk.BeforeT, AtOrAfterText: wk.AtOrAfterText, BeforeText: wk.BeforeText}
 		if wk.Forward {
 			r.First, r.After = &n, cur
 		} else {
@@ -789,14 +792,14 @@ func (h *harness) shrink(c Case, f failure, key string) (Case, failure) {
 				if d.Req == nil || d.Req.AtOrAfter == nil {
 					return false
 				}
-				d.Req.AtOrAfter = nil
+				d.Req.AtOrAfter, d.Req.AtOrAfterText = nil, ""
 				return true
 			},
 			func(d *Case) bool {
 				if d.Req == nil || d.Req.BeforeT == nil {
 					return false
 				}
-				d.Req.BeforeT = nil
+				d.Req.BeforeT, d.Req.BeforeText = nil, ""
 				return true
 			},
 			func(d *Case) bool { return d.Req != nil && dec1(&d.Req.First) },
@@ -819,14 +822,14 @@ func (h *harness) shrink(c Case, f failure, key string) (Case, failure) {
 				if d.Walk == nil || d.Walk.AtOrAfter == nil {
 					return false
 				}
-				d.Walk.AtOrAfter = nil
+				d.Walk.AtOrAfter, d.Walk.AtOrAfterText = nil, ""
 				return true
 			},
 			func(d *Case) bool {
 				if d.Walk == nil || d.Walk.BeforeT == nil {
 					return false
 				}
-				d.Walk.BeforeT = nil
+				d.Walk.BeforeT, d.Walk.BeforeText = nil, ""
 				return true
 			},
 			func(d *Case) bool {
@@ -930,6 +933,9 @@ func (h *harness) count(c Case, f failure) {
 			win = "beforeTime"
 		}
 		h.run.Count("time-window:" + win)
+		if r.AtOrAfterText != "" || r.BeforeText != "" {
+			h.run.Count("time-window:far-away-bound(outside int64 ns)")
+		}
 		f2 := filters{AtOrAfter: r.AtOrAfter, BeforeT: r.BeforeT}
 		for name, a := range map[string]*CurArg{"after": r.After, "before": r.Before} {
 			switch {
@@ -1059,7 +1065,7 @@ func (h *harness) flush() {
 			after, _ := posOf(r.After)
 			before, _ := posOf(r.Before)
 			want := timeRef(c.D, filters{after, before, r.AtOrAfter, r.BeforeT}, r.First, r.Last)
-			lines = append(lines, hx.N("timeref", edgesS(sortedEdges(c.D)), optEdgeS(after), optEdgeS(before), optI64(r.AtOrAfter), optI64(r.BeforeT), optI(r.First), optI(r.Last)).String())
+			lines = append(lines, hx.N("timeref", edgesS(sortedEdges(c.D)), optEdgeS(after), optEdgeS(before), boundAtom(r.AtOrAfter, r.AtOrAfterText), boundAtom(r.BeforeT, r.BeforeText), optI(r.First), optI(r.Last)).String())
 			pd.spec = edgesS(want).String()
 			pd.nlines = 2
 		}
